@@ -1,11 +1,14 @@
 package props
 
 import (
+	stdxml "encoding/xml"
 	"fmt"
 	"strings"
 	"time"
 
 	"github.com/beevik/etree"
+	saml2 "github.com/russellhaering/gosaml2"
+	"github.com/russellhaering/gosaml2/types"
 
 	"verifsim/core"
 	"verifsim/world"
@@ -28,7 +31,7 @@ func init() {
 			"plus kind confusion between endpoints; oracle: accept => logout reference model holds on the returned structure; single fault => typed error naming it; flag false with checking off, otherwise true iff the root's own signature is honoured and then every returned field equals the issue-log unit; distinct = shape hash of those knobs and the outcome",
 		Directed:   c10Directed,
 		Run:        func(r *core.Run) { r.Tape.Int(1, "c04.flow"); logoutAdversarial(r, "C10") },
-		MustHit:    []string{"kind=LogoutRequest", "kind=LogoutResponse", "misroute", "signing=untrusted", "signing=tampered", "signing=wrapped-new-id", "signing=wrapped-same-id", "signing=relocated-signature", "signing=foreign-signature", "skip_config", "issuer_unconfigured", "compressed", "nonconforming_idp", "slo_url_unconfigured"},
+		MustHit:    []string{"kind=LogoutRequest", "kind=LogoutResponse", "misroute", "signing=untrusted", "signing=tampered", "signing=wrapped-new-id", "signing=wrapped-same-id", "signing=relocated-signature", "signing=foreign-signature", "skip_config", "issuer_unconfigured", "compressed", "nonconforming_idp", "slo_url_unconfigured", "validate_decoded_called_directly"},
 		RandomRuns: map[string]int{"quick": 8000, "thorough": 80000},
 	})
 }
@@ -322,6 +325,41 @@ func logoutAdversarial(r *core.Run, prop string) {
 	}
 	ctx := obs("minted", mint, "endpoint", endpoint, "signing", signing, "fault", fault, "skip", skip, "issuer_configured", issuerCfg, "compressed", compress, "err", fmt.Sprint(out.Err), "delivered", trunc(xml, 2000))
 
+	// the exported ValidateDecodedLogout* called directly on a message the application decoded itself
+	if !misroute && (signing == "trusted" || signing == "unsigned") && t.Int(4, "c10.direct") == 1 {
+		var derr error
+		decoded := false
+		do := world.Guard(func() error {
+			if endpoint == "LogoutRequest" {
+				lr := &saml2.LogoutRequest{}
+				if derr = stdxml.Unmarshal([]byte(xml), lr); derr != nil {
+					return nil
+				}
+				decoded = true
+				return s.Node.SP.ValidateDecodedLogoutRequest(lr)
+			}
+			lr := &types.LogoutResponse{}
+			if derr = stdxml.Unmarshal([]byte(xml), lr); derr != nil {
+				return nil
+			}
+			decoded = true
+			return s.Node.SP.ValidateDecodedLogoutResponse(lr)
+		})
+		if decoded && do.Panic == "" {
+			r.Steps++
+			r.Probe("validate_decoded_called_directly")
+			dctx := obs("entry", "ValidateDecoded"+endpoint, "fault", fault, "issuer_configured", issuerCfg, "slo_unset", sloUnset, "err", fmt.Sprint(do.Err))
+			viol := fault != "none" && !(fault == "issuer-wrong" && !issuerCfg)
+			if viol {
+				c10CheckFault(r, prop+"/direct", fault, do, dctx)
+			} else if !do.OK() {
+				r.Fail("completeness", prop+"/direct/conforming-rejected/"+world.ErrClass(do.Err), dctx)
+			}
+			if r.Failed() {
+				return
+			}
+		}
+	}
 	// ---- oracle
 	if misroute {
 		if out.OK() {
